@@ -71,11 +71,41 @@ impl Scenario for Repartition {
         })
     }
     fn run(&self, case: Value) -> RunFuture {
-        Box::pin(async move { run(case).await })
+        Box::pin(async move { run(case, false).await })
     }
 }
 
-async fn run(case: Value) -> Outcome {
+/// C20 at operator level: the same exchange with one input error injected and some outputs
+/// dropped early; every output that is read to its end must report the error.
+pub struct RepartitionFaults;
+
+impl Scenario for RepartitionFaults {
+    fn name(&self) -> &'static str {
+        "c20-repartition"
+    }
+    fn generate(&self, rng: &mut Rng, tier: Tier) -> Value {
+        let mut case = Repartition.generate(rng, tier);
+        // one error at a random step of a random input partition
+        if let Some(parts) = case["table"].as_array_mut() {
+            let p = rng.below(parts.len() as u64) as usize;
+            if let Some(steps) = parts[p].as_array_mut() {
+                let pos = rng.below(steps.len() as u64 + 1) as usize;
+                steps.insert(pos, json!("err"));
+            }
+        }
+        // more early drops than in C10: the interesting cases mix dead and live outputs
+        let outputs = case["outputs"].as_u64().unwrap_or(1);
+        let drops: Vec<Value> = (0..outputs).map(|_| if rng.chance(1, 3) { json!(rng.range(0, 2)) } else { Value::Null }).collect();
+        case["drops"] = json!(drops);
+        case["env"]["pool"] = json!({"kind": "unbounded", "limit": 0, "neighbour": []});
+        case
+    }
+    fn run(&self, case: Value) -> RunFuture {
+        Box::pin(async move { run(case, true).await })
+    }
+}
+
+async fn run(case: Value, fault_mode: bool) -> Outcome {
     let Some(table) = parse_table(&case["table"]) else { return Outcome::Invalid };
     let Some(outputs) = case["outputs"].as_u64().filter(|n| (1..=16).contains(n)) else { return Outcome::Invalid };
     let outputs = outputs as usize;
@@ -139,6 +169,27 @@ async fn run(case: Value) -> Outcome {
     tokio::time::sleep(std::time::Duration::from_secs(3600)).await;
 
     // ---- oracle
+    if fault_mode {
+        let fired = sim::with(|s| s.probes.get("fault.source_error") > 0);
+        if fired {
+            for (p, r) in results.iter().enumerate() {
+                if drops[p].is_none() {
+                    if let Ok(batches) = r {
+                        return violation(
+                            "truncated-success",
+                            format!("an input partition failed, but output {p} (read to its end) finished successfully with {} batches instead of reporting the error", batches.len()),
+                        );
+                    }
+                }
+            }
+            sim::probe("probe.error_surfaced_on_every_live_output");
+            if let Some(v) = ctx.quiescence_violation(&[&source]) {
+                return v;
+            }
+            return Outcome::Pass;
+        }
+        sim::probe("probe.fault_not_reached");
+    }
     let expect_part: Vec<usize> = if hash { expected_hash_partition(&rows, &keys, outputs) } else { vec![] };
     let mut seen: std::collections::BTreeMap<i64, usize> = Default::default();
     for (p, r) in results.iter().enumerate() {
